@@ -12,7 +12,8 @@ def run(report, tier):
     thorough = tier == "thorough"
     report.assumptions += [
         "conjugates of the pool names are a hand-written table; for the whole-table variant the reference is the particle package's PDG ids",
-        "names are dictionary keys, so no symbolic data: the solver drives and closes the enumeration of the statement-order family",
+        "names are dictionary keys, so they cannot be symbolic: for the name-level families the solver drives and closes the enumeration; "
+        "the numeric content of the tables is symbolic in A[cdecay-values]",
         "each name is the subject of at most one CDecay statement (quantifier of the property)",
     ]
     hs = [
@@ -36,5 +37,12 @@ def run(report, tier):
                             "and conjugates it; for self-conjugate / unknown names nothing is created under a guessed name",
                       bounds=f"all {H.N_NAMES} EvtGen names as the subject of a CDecay statement", functions=FUNCS, timeout=600,
                       sample={"text": "Decay anti-Xi_c0 / CDecay Xi_c0"}))
+    hs.append(Harness(name="cdecay-values", module="harness.c03", body="body_cdecay_values", sig="sel: int, x: float, y: float, z: float",
+                      n_sel=H.N_VALUES, pre=["x == x", "y == y", "z == z"],
+                      claim="the conjugated table (also the conjugate of a copied table) has the lines of its source in order with identical "
+                            "branching fractions, PHOTOS flags, models and parameters - for every numeric value; the source is untouched",
+                      bounds="one aliased source table of three lines behind a Lark stub x ChargeConj in both orientations x CopyDecay + CDecay",
+                      symbolic="three numeric token values (branching fractions and parameters): any non-NaN float", functions=FUNCS,
+                      shards=3, timeout=300, sample={"tree": "CDecay MyAntiD0 / Decay MyD0 (x K- pi+ MyK+ PHOTOS SSD_CP y word z; ...)"}))
     for h in hs:
         chrun.run_harness(report, h)
